@@ -2,6 +2,7 @@ package main
 
 import (
 	"fmt"
+	"math"
 	"strings"
 
 	"verif/harness/ph"
@@ -9,7 +10,7 @@ import (
 
 func defsC02(tier string) []*ph.Def {
 	var out []*ph.Def
-	bounds := [][2]int{{1, 1}, {1, 2}, {1, 3}, {2, 2}, {2, 3}, {3, 3}}
+	bounds := [][2]int{{1, 1}, {1, 2}, {1, 3}, {2, 2}, {2, 3}, {3, 3}, {1, math.MaxInt}} // the last one is the usual way to say "unbounded"
 	for _, kind := range []ph.Kind{ph.StrS, ph.IntS, ph.FltS, ph.Map} {
 		for _, b := range bounds {
 			for mode := 0; mode < 3; mode++ {
@@ -41,7 +42,7 @@ func init() {
 	(&specSweepCheck{
 		id: "C02",
 		rule: "input-space exploration: every argv of length <= L over a 22-token alphabet (values, numbers, key=value, ranges, empty string, `-`, `--`, option-looking tokens, command name, the option itself with and without attached value; for argv shorter than L also zero-padded, hexadecimal, exponent, signed and underscore numerals) " +
-			"for each element type x (min,max) in {(1,1),(1,2),(1,3),(2,2),(2,3),(3,3)} x 3 modes x {fail,pass}; stored values, remaining, sibling option and error compared with the reference intake model; " +
+			"for each element type x (min,max) in {(1,1),(1,2),(1,3),(2,2),(2,3),(3,3),(1,MaxInt)} x 3 modes x {fail,pass}; stored values, remaining, sibling option and error compared with the reference intake model; " +
 			"distinct_nontrivial = distinct (definition, argv) cases inside the specified territory",
 		defs:     defsC02,
 		alpha:    []string{"a", "5", "1.5", "k=v", "k=a=b", "=v", "1..3", "3..1", "", "-", "--", "--x", "-5", "c", "--m", "--m=a", "--m=5", "--m=k=v", "--m=k=w=z", "--m=1..3", "-m", "--zz"},
